@@ -13,7 +13,9 @@ PATHS = ["a.go", "z.go", "sub/b.go", "sub/deep/e.go", ".m.go", ".hid/c.go", "sub
 QUICK_PATHS = PATHS
 THOROUGH_PATHS = PATHS + ["sub/deep/.h/q.go", ".x.go/y.go", "sub/deep/f.txt", "zz/b.go"]
 PATS = ["*.go", "**/*.go", "sub/*", "*/*", "**", "**/*", "sub/**", "*", "s*/*.go", "*.{go,txt}", "**/deep/*", "sub/*.go",
-        "*/*.go", "**/*.txt", "**/e.go", "sub/**/*.go", "*.txt", "sub/.*", ".*", "*/*/*.go", "**/b.go", ".hid/*", "**/.d.go", "{a,z}.*"]
+        "*/*.go", "**/*.txt", "**/e.go", "sub/**/*.go", "*.txt", "sub/.*", ".*", "*/*/*.go", "**/b.go", ".hid/*", "**/.d.go", "{a,z}.*",
+        # alternation in a directory segment (also before the first wildcard), with a hidden branch, and in the middle of a path
+        "{sub,zz}/*.go", "{sub,.hid}/*.go", "{sub,zz}/**/*.go", "sub/{deep,zz}/*", "{.m,a}.go*"]
 
 
 def chars(s):
